@@ -75,6 +75,7 @@ type DaemonScenario struct {
 	DKGFault   *DKGFault     `json:"dkg_fault,omitempty"`
 	Follow     *FollowPlan   `json:"follow,omitempty"`
 	Check      *CheckPlan    `json:"check,omitempty"`
+	DKGSteps   []DKGStep     `json:"dkg_steps,omitempty"`
 	Mode       string        `json:"mode,omitempty"` // engine sub-mode chosen by the generator (fuzz, secrets, ...)
 }
 
@@ -117,6 +118,7 @@ type dNode struct {
 	followCancel  context.CancelFunc
 	followErr     error
 	followEnded   bool
+	dkgTrack      *dkgTrack
 }
 
 func (n *dNode) bumpRoute() {
@@ -166,6 +168,9 @@ type daemonEngine struct {
 	served int
 	oldShares []oldShare
 	crashKind string
+	gossip    []*pdkg.GossipPacket // genuine DKG gossip seen on the wire (material for the forger)
+	pendingLeader *dNode
+	migrating bool
 	lastFault time.Time // end of the last fault injected outside the script (by the resharing driver)
 	servedMax map[int]uint64
 }
@@ -526,12 +531,18 @@ func (e *daemonEngine) setup() error {
 			return err
 		}
 	}
-	if e.keepIO {
-		e.w.OnWire = func(from, to, method, dir string, b []byte) {
-			e.wireMu.Lock()
+	e.w.OnWire = func(from, to, method, dir string, b []byte) {
+		e.wireMu.Lock()
+		defer e.wireMu.Unlock()
+		if e.keepIO {
 			e.wire.Write(b)
 			e.wire.WriteByte(0)
-			e.wireMu.Unlock()
+		}
+		if method == MDKGPacket && dir == "req" && len(e.sc.DKGSteps) > 0 && len(e.gossip) < 200 {
+			g := new(pdkg.GossipPacket)
+			if proto.Unmarshal(b, g) == nil && g.GetDkg() == nil && g.Metadata != nil {
+				e.gossip = append(e.gossip, g)
+			}
 		}
 	}
 	return nil
